@@ -368,16 +368,24 @@ class QueryGen:
             c = [h for h in w.order if kind_of(w.handles[h]) in ("instance", "definition", "library")]
             if not c:
                 return None
-            members = [r.choice(c) for _ in range(r.randint(2, 4))]
-            if r.random() < 0.3:
+            members = [r.choice(c) for _ in range(r.randint(1, 3))]
+            if r.random() < 0.35:
+                members.append(self.b.netlist)
+            for _ in range(r.choice([0, 0, 1, 2])):
                 try:
                     el = Elab(n)
                 except OverflowError:
                     return None
                 if el.occ:
-                    hs = [w.handle_of(i) for i in r.choice(el.occ)]
+                    # references to occurrences, short paths preferred (a root that is a child occurrence of another
+                    # root of the same query)
+                    occ = sorted(el.occ, key=len)
+                    hs = [w.handle_of(i) for i in r.choice(occ[:max(1, len(occ) // 2)] if r.random() < 0.6 else occ)]
                     if all(h is not None for h in hs):
                         members.append(hs)
+            r.shuffle(members)
+            if len(members) < 2:
+                return None
             root = {"r": "list", "members": members}
         else:
             kind = r.choice(["instance", "definition", "port", "cable", "ipin", "wire", "library"])
@@ -415,6 +423,7 @@ class C11(Prop):
         cfg["unnamed"] = rng.choice([0.0, 0.0, 0.3])
         cfg["array_rate"] = rng.choice([0.0, 0.3, 0.6])
         cfg["steps"] = 10 ** 6
+        cfg["rewrap"] = rng.choice([False, False, False, True])
         cfg["n_queries"] = rng.choice([4, 8, 14])
         cfg["n_edits"] = rng.choice([0, 1, 3, 6])
         cfg["n_drops"] = rng.choice([0, 1, 3])
